@@ -587,8 +587,10 @@ class ModelFeatures:
                 if self.covariate != tuple() or mfl.covariate != tuple():
                     if model is None:
                         warnings.warn("Need argument 'model' in order to compare covariates")
+                        return False
                     else:
                         return True if self._subset_covariate(mfl, model) else False
+                return True
         else:
             return False
 
